@@ -15,10 +15,18 @@ PROP = "C08"
 CHUNK = 8
 
 
+ODD_NAMES = ["\0\0\0HELLO", "\0", "A\0B", "AB\0\0", " LEAD", "\u00ffX", "\u00e5ABC", "", "A B", "a/b", "*", "X:1", "\u20acURO"]
+
+
 def cases(tier, seed):
     for c in c07.cases(tier, seed):
         if c["k"] in ("write", "frag"):
             yield c
+    # names outside the domain of C07 (not letters/digits): the writer may refuse them, but whatever image it writes must be consistent
+    for nm in ODD_NAMES:
+        for n in (30, 3000):
+            yield {"k": "wname", "files": [c07.fspec("ML", n, nm), c07.fspec("BAS", 30, "WORLD", "BAS")], "fill": "default"}
+            yield {"k": "wname", "files": [c07.fspec("ML", 10, "FIRST"), c07.fspec("ASC", n, nm, "TXT"), c07.fspec("ML", 30, "LAST")], "fill": "default"}
     # fill histories: k-granule files until the disk is full (the images on the way are checked)
     for k in (1, 2, 3, 5, 9, 17, 34):
         yield {"k": "fill", "gran": k, "fill": "default", "files": []}
@@ -30,8 +38,9 @@ def check_case(case):
     res = {"nontrivial": True, "outcome": "ok", "transitions": 1}
     viol = []
     images = []
-    if case["k"] in ("write", "frag"):
-        cell = c07.cell_of(case)
+    if case["k"] in ("write", "frag", "wname"):
+        cell = c07.cell_of(case) if case["k"] != "wname" else "wname|{}|{}".format(
+            [f["name"] for f in case["files"] if f["name"] not in ("WORLD", "FIRST", "LAST")][0].encode("unicode_escape").decode(), len(case["files"]))
         try:
             if case["k"] == "frag":
                 img, specs = c07.build_frag(case)
